@@ -78,6 +78,7 @@ func (ft *funcTr) block(list []ast.Stmt, m mode, ind string) string {
 		return ft.finish(m, ind)
 	}
 	s, rest := list[0], list[1:]
+	rest = ft.dropDeadJumps(s, rest) // segfail.go
 	if !fallsThrough([]ast.Stmt{s}) && len(rest) > 0 {
 		if _, isIf := s.(*ast.IfStmt); !isIf {
 			ft.t.fail(rest[0], "unreachable code")
